@@ -673,6 +673,19 @@ func (c *Ctx) checkSingleSignal(r *Result, fn *ssa.Function, wait ssa.Instructio
 		}
 	})
 	if tested == "" {
+		// closing a channel twice panics: a stop function that signals by close() must claim the stop under the lock
+		var closeAt ssa.Instruction
+		instrs(fn, func(in ssa.Instruction) {
+			if call, ok := in.(*ssa.Call); ok {
+				if b, isB := call.Call.Value.(*ssa.Builtin); isB && b.Name() == "close" {
+					closeAt = in
+				}
+			}
+		})
+		if closeAt != nil {
+			r.Viol("C18.6", c.Name(fn)+"#single-stop-signal", c.InstrPos(closeAt), "the stop channel is closed without a flag that is tested and cleared under one hold of the lock: two overlapping stop requests both pass an unlocked (or separately locked) running test and the second close panics")
+			return
+		}
 		r.Undec("C18.6", c.Name(fn)+"#single-stop-signal", c.InstrPos(wait), "no flag test under lock found")
 		return
 	}
@@ -883,4 +896,64 @@ func c18workerReplaced(c *Ctx, r *Result) {
 		r.Errorf("C18.7: no assignment of a new worker object to a field found")
 	}
 	r.Floor("C18.7", 1)
+}
+
+func init() {
+	reg := registry["C18"]
+	reg.Meta.Rules["C18.8"] = "a read lock is for reading: no field of a struct is stored to at a point where that struct's RWMutex is held only in shared mode (RLock without Lock) - two holders of the read lock would update the field concurrently"
+	reg.Rules = append(reg.Rules, func(c *Ctx, r *Result) {
+		n := 0
+		for _, fn := range c.LibFuncs() {
+			pk := shortPkg(fnPkgPath(fn))
+			if pk != "structures" && pk != "rebalancing" && pk != "hdf5" {
+				continue
+			}
+			usesR := false
+			instrs(fn, func(in ssa.Instruction) {
+				if call, ok := in.(*ssa.Call); ok {
+					if f := call.Call.StaticCallee(); f != nil && f.Pkg != nil && f.Pkg.Pkg.Path() == "sync" && f.Name() == "RLock" {
+						usesR = true
+					}
+				}
+			})
+			if !usesR {
+				continue
+			}
+			shared := locksInMode(fn, lockSet{}, 1)
+			excl := locksInMode(fn, lockSet{}, 2)
+			instrs(fn, func(in ssa.Instruction) {
+				st, ok := in.(*ssa.Store)
+				if !ok {
+					return
+				}
+				fa, ok := st.Addr.(*ssa.FieldAddr)
+				if !ok {
+					return
+				}
+				fld, base := fieldOfAddr(fa)
+				if fld == nil || isMutexType(fld.Type()) {
+					return
+				}
+				sharedHeld, exclHeld := false, false
+				for k := range shared.at[in] {
+					if k.base == base {
+						sharedHeld = true
+					}
+				}
+				for k := range excl.at[in] {
+					if k.base == base {
+						exclHeld = true
+					}
+				}
+				if !sharedHeld {
+					return
+				}
+				n++
+				r.Check(exclHeld, "C18.8", c.Name(fn)+"#"+fieldKey(base.Type(), fld)+"#stored-under-read-lock", c.InstrPos(in), "this store happens while only the read lock of its owner is held")
+			})
+		}
+		if n == 0 {
+			r.Hold("C18.8", "module#no-store-under-read-lock", "", "no field is stored to inside a read-locked region")
+		}
+	})
 }
